@@ -934,9 +934,12 @@ func htData(c *Ctx, a *flAgg) {
 	}
 	walk(trees["t"].Root, true)
 	// keys set on every path
+	vals := map[*ssa.Function]map[string]string{}
 	mustSet := func(fn *ssa.Function, until func(*Expr) bool) map[string]bool {
+		vals[fn] = map[string]string{}
 		exprHome = fn.Pkg.Pkg
-		x := &SPE{Fn: fn, MaxVisits: 2}
+		// (a loop over a small constant table of keys is unrolled)
+		x := &SPE{Fn: fn, MaxVisits: 10}
 		x.Explore()
 		var out map[string]bool
 		for _, p := range x.Paths {
@@ -944,8 +947,21 @@ func htData(c *Ctx, a *flAgg) {
 			keys := map[string]bool{}
 			for _, ev := range p.Events {
 				if ev.Kind == EvMapUpd {
+					if os.Getenv("PPCHECK_HT_DUMP") != "" {
+						fmt.Fprintf(os.Stderr, "HT mapupd key=%v val=%v\n", ev.Key, ev.Val)
+						for k, v := range p.Cells {
+							if strings.Contains(k, "complit") {
+								fmt.Fprintf(os.Stderr, "   cell %s = %v\n", k, v)
+							}
+						}
+					}
 					if k, ok := constStr(ev.Key); ok && !reached {
 						keys[k] = true
+						v := ev.Val.String()
+						if old, seen := vals[fn][k]; seen && old != v {
+							v = "?"
+						}
+						vals[fn][k] = v
 					}
 				}
 				// keys of a map literal are stored the same way
@@ -988,10 +1004,31 @@ func htData(c *Ctx, a *flAgg) {
 		}
 		var missing []string
 		for k := range used {
-			if optional[k] || outer[k] || inner[k] {
+			// a key tested with {{if .K}} may be left out by the page that
+			// has nothing to show for it, never by the page named after it
+			if optional[k] && k != recv || outer[k] || inner[k] {
 				continue
 			}
 			missing = append(missing, k)
+		}
+		// the page shows the value it was asked to render
+		if len(fn.Params) > 0 {
+			rn := fn.Params[0].Name()
+			want := map[string]string{recv: rn}
+			if recv == "Aggregated" && used["Snapshot"] {
+				want["Snapshot"] = rn + ".Snapshot"
+			}
+			for k, w := range want {
+				got, have := vals[fn][k]
+				if !have {
+					continue // reported as missing
+				}
+				if got != w {
+					a.bad("HT-complete", "data/"+recv+".ToHTML/"+k, "the template's "+k+" is "+got+", not the value ToHTML was called on", fn.Pos())
+				} else {
+					a.ok("HT-complete", "data/"+recv+".ToHTML/"+k, "the template's "+k+" is "+got, fn.Pos())
+				}
+			}
 		}
 		sort.Strings(missing)
 		if len(missing) == 0 {
